@@ -25,7 +25,7 @@ RULE = (
     "through open_alos2). Plus real kills: a child process runs open_alos2(create_cache=True) "
     "with a byte-wise writer installed by the harness and SIGKILLs itself at a generated offset "
     "of a generated image (quick 8, thorough 200); plus a live second writer held mid-write on a "
-    "pipe while the reader opens; plus disk full: the write of one image's index stops after a "
+    "pipe while the reader opens; plus both locations torn at once (grid and generated pairs of prefix lengths); plus disk full: the write of one image's index stops after a "
     "generated number of bytes with ENOSPC inside this process (the failing call may raise "
     "OSError; later opens are judged). Oracle after each fault: open_alos2(path) with default options "
     "returns a tree identical to the uncached reference; then create_cache=True succeeds, the "
@@ -231,6 +231,25 @@ def run_case(case):
             for d in out:
                 d.setdefault("context", {}).update(k=k, length=len(doc))
             return out
+        if case["kind"] == "prefix2":
+            # interrupted twice: a torn index in the user cache dir AND a torn one next to the image
+            image = images[case["image"]]
+            doc = docs[image]
+            ks = {}
+            for loc in ("user", "adjacent"):
+                k = case[f"k_{loc}"] % (len(doc) + 1)
+                ks[loc] = k
+                p = location_path(prod, image, loc)
+                p.parent.mkdir(parents=True, exist_ok=True)
+                p.write_bytes(doc.encode("latin-1")[:k])
+            torn = {im for im in images if im != image}
+            # the user-dir index must be complete after the repair unless a complete one was served
+            if ks["user"] < len(doc):
+                torn.add(image)
+            out = after_fault(prod, images, ref, docs, "prefixes at user and adjacent", torn_images=torn)
+            for d in out:
+                d.setdefault("context", {}).update(k_user=ks["user"], k_adjacent=ks["adjacent"], length=len(doc))
+            return out
         if case["kind"] == "kill":
             image = images[case["image"]]
             offset = case["offset"] % (len(docs[image]) + 1)
@@ -356,6 +375,14 @@ def enum_cases(tier):
                     for k in range(n + 1):
                         through = "open_alos2" if k % 25 == 0 or k in (1, n - 1, n) else "open_image"
                         yield {"kind": "prefix", "level": level, "image": i, "location": location, "k": k, "through": through}
+        for i, image in enumerate(images):
+            n = len(docs[image])
+            grid = [0, 1, n // 2, n - 1] if tier == "quick" else [0, 1, 2, n // 3, n // 2, n - 2, n - 1, n]
+            for ku in grid:
+                for ka in grid:
+                    if tier == "quick" and i == 1 and (ku + ka) % 2:
+                        continue
+                    yield {"kind": "prefix2", "level": level, "image": i, "k_user": ku, "k_adjacent": ka}
         for j in range(2 if tier == "quick" else 12):
             yield {"kind": "writer", "level": level, "image": j % 2, "location": ["user", "adjacent"][j % 2], "cut": 37 + 211 * j}
 
@@ -370,6 +397,12 @@ def random_prefix(draw):
         "k": draw(st.integers(0, 40000)),
         "mod": True,
     }
+
+
+@st.composite
+def random_prefix2(draw):
+    return {"kind": "prefix2", "level": draw(st.sampled_from(LEVELS)), "image": draw(st.integers(0, 1)),
+            "k_user": draw(st.integers(0, 40000)), "k_adjacent": draw(st.integers(0, 40000))}
 
 
 @st.composite
@@ -388,6 +421,7 @@ def plan(tier):
     return [
         {"kind": "enum", "name": "prefixes+live-writer", "cases": lambda: enum_cases(tier), "exhaustive": True},
         {"kind": "hyp", "name": "random-prefixes", "strategy": random_prefix(), "examples": 60 if q else 2000},
+        {"kind": "hyp", "name": "random-prefix-pairs", "strategy": random_prefix2(), "examples": 30 if q else 2000},
         {"kind": "hyp", "name": "sigkill", "strategy": kill_cases(), "examples": 8 if q else 200},
         {"kind": "hyp", "name": "disk-full", "strategy": enospc_cases(), "examples": 24 if q else 1500},
     ]
